@@ -494,6 +494,194 @@ Audit audit(vrt::Case& c, const Spec& sp)
       judgeSolution(I, toDense(*mO), "inv", callText);
     }
   }
+  // ---- accessor histories.  The statement speaks of "the factorisation" of A: what getL / getU / getPivot / det / solve give must not
+  // depend on which members of the same decomposition object were called before, in which order or how often, nor on whether the object is
+  // the original, a copy of a partly queried object or the target of an assignment that had already served another matrix.  The audit above
+  // always asks getL, getU, getPivot, det, solve in that one order; here a second decomposition of the same A goes through a random history
+  // (1..4 operations drawn from all members, then the four accessors in a random order), and the first object is asked again after its solves.
+  // Every factor that comes back is judged by the statement itself (shape, unit lower / upper triangular exactly, P.A = L.U within the same
+  // bound as above) and against the first answer (the elimination is deterministic: the same factorisation is the same bits); solves are
+  // judged by the clauses above on a fresh right-hand side.
+  {
+    auto factorResidualOk = [&](const Dense& Lx, const Dense& Ux, const vector<size_t>& px) {
+        for (size_t i = 0; i < n; ++i)
+          for (size_t j = 0; j < n; ++j)
+          {
+            LD s = 0, ab = 0;
+            for (size_t k = 0; k < n; ++k) { LD t = static_cast<LD>(Lx(i, k)) * Ux(k, j); s += t; ab += fabsl(t); }
+            if (!(fabsl(static_cast<LD>(A(px[i], j)) - s) <= 8 * static_cast<LD>(n) * EPS * ab + TINYABS)) return false;
+          }
+        return true;
+      };
+    // what = 0 getL, 1 getU, 2 getPivot, 3 det.  tag = first-call / repeated-call of that accessor in the life of the object (and of the objects it was copied from)
+    auto judgeAccessor = [&](LUDecomposition<double>& x, int what, const string& tag, const string& hist) {
+        const string hcls = cls + "," + tag;
+        if (what == 0 || what == 1)
+        {
+          const char* nm = what == 0 ? "getL" : "getU";
+          Dense F = toDense(what == 0 ? x.getL() : x.getU());
+          const Dense& F0 = what == 0 ? L : U;
+          if (!vrt::expect(F.r == n && F.c == n, "history.shape", hcls, [&] { return head + ": " + hist + " => " + nm + "() is " + str(F.r) + "x" + str(F.c); }))
+            return;
+          bool tri = true, fin = true;
+          for (size_t i = 0; i < n; ++i)
+            for (size_t j = 0; j < n; ++j)
+            {
+              if (!std::isfinite(F(i, j))) fin = false;
+              if (what == 0 && ((i == j && F(i, j) != 1.0) || (i < j && F(i, j) != 0.0))) tri = false;
+              if (what == 1 && i > j && F(i, j) != 0.0) tri = false;
+            }
+          if (!vrt::expect(tri && fin, what == 0 ? "history.L-unit-lower" : "history.U-upper", hcls, [&] {
+                return head + ": " + hist + " => " + nm + "()=" + dump(F) + " is not " + (what == 0 ? "unit lower" : "upper") + " triangular (the first decomposition gave " + dump(F0) + ")";
+              }))
+            return;
+          bool same = F.a == F0.a; // finite, so == on the values is the bit pattern up to the sign of zero
+          // identical factors satisfy P.A = L.U because the first ones were verified above; different ones are judged by the equation first
+          bool eq = same ? resOk : factorResidualOk(what == 0 ? F : L, what == 1 ? F : U, piv);
+          if (resOk && !vrt::expect(eq, "history.PA=LU", hcls, [&] {
+                return head + ": " + hist + " => " + nm + "()=" + dump(F) + " does not satisfy P.A=L.U within 8.n.eps.|L||U| with pivot " + vrt::vecStr(piv) + (what == 0 ? " U=" + dump(U) : " L=" + dump(L));
+              }))
+            return;
+          vrt::expect(same, "history.same-factors", hcls, [&] { return head + ": " + hist + " => " + nm + "()=" + dump(F) + " but the first decomposition of the same matrix gave " + dump(F0); });
+        }
+        else if (what == 2)
+        {
+          vector<size_t> px = x.getPivot();
+          vrt::expect(px == piv, "history.same-pivot", hcls, [&] { return head + ": " + hist + " => getPivot()=" + vrt::vecStr(px) + " but the first decomposition of the same matrix gave " + vrt::vecStr(piv); });
+        }
+        else
+        {
+          double dx = x.det();
+          vrt::expect(vrt::sameDouble(dx, out.det), "history.same-determinant", hcls + (moved ? ",rows-exchanged" : ",no-exchange"), [&] {
+              return head + ": " + hist + " => det()=" + num(dx) + " but the first decomposition of the same matrix gave " + num(out.det) + " (pivot " + vrt::vecStr(piv) + ")";
+            });
+        }
+      };
+    static const char* const accName[] = { "getL", "getU", "getPivot", "det" };
+    static const char* const opName[] = { "getL", "getU", "getPivot", "det", "solve(B)", "solve(b)", "copy", "assign", "MatrixTools::det", "MatrixTools::inv" };
+    // weights: the two lazily computable factors most often
+    static const int opDraw[] = { 0, 0, 0, 1, 1, 1, 2, 3, 4, 4, 5, 6, 6, 7, 7, 8, 9 };
+
+    unique_ptr<LUDecomposition<double>> h(new LUDecomposition<double>(*mA));
+    bool seen[4] = { false, false, false, false };
+    string hist = "LUDecomposition(A)", prev = "ctor";
+    bool uBeforeL = false, lBeforeU = false;
+    auto accessor = [&](int what) {
+        hist += string(", ") + accName[what] + "()";
+        vrt::step("history: " + hist);
+        if (what == 0 && !seen[0]) (seen[1] ? uBeforeL : lBeforeU) = true;
+        vrt::cover(string("history:") + accName[what] + (seen[what] ? ":repeated" : ":first") + ":after-" + prev);
+        judgeAccessor(*h, what, seen[what] ? "repeated-call" : "first-call", hist);
+        seen[what] = true;
+        prev = accName[what];
+      };
+    const size_t nPrefix = 1 + c.rng.below(4);
+    for (size_t q = 0; q < nPrefix; ++q)
+    {
+      const int op = opDraw[c.rng.below(sizeof(opDraw) / sizeof(opDraw[0]))];
+      if (op <= 3) { accessor(op); continue; }
+      switch (op)
+      {
+      case 4:
+      {
+        size_t k = 1 + c.rng.below(4);
+        int kB = static_cast<int>(c.rng.below(3)), kX = static_cast<int>(c.rng.below(3)), pre = static_cast<int>(c.rng.below(4));
+        Dense B = randomRhs(n, k);
+        unique_ptr<Matrix<double>> mB = fromDense(kB, B), mX = preState(kX, pre, n, k);
+        hist += string(", solve(B(") + KN[kB] + "," + str(n) + "x" + str(k) + "), X(" + KN[kX] + ",pre-state " + str(pre) + "))";
+        vrt::step("history: " + hist);
+        double ind = 0;
+        vrt::Outcome o = vrt::capture([&] { ind = h->solve(*mB, *mX); });
+        if (judgeOutcome(o, ind, "history-matrix-solve", hist)) judgeSolution(B, toDense(*mX), "history-matrix-solve", hist);
+        break;
+      }
+      case 5:
+      {
+        Dense B = randomRhs(n, 1);
+        vector<double> b(n), x;
+        for (size_t i = 0; i < n; ++i) b[i] = B(i, 0);
+        if (c.rng.chance(0.5)) x.assign(n + c.rng.below(3), 55.5);
+        hist += ", solve(vector b, vector x of length " + str(x.size()) + ")";
+        vrt::step("history: " + hist);
+        double ind = 0;
+        vrt::Outcome o = vrt::capture([&] { ind = h->solve(b, x); });
+        if (judgeOutcome(o, ind, "history-vector-solve", hist))
+        {
+          Dense X(x.size(), 1);
+          for (size_t i = 0; i < x.size(); ++i) X(i, 0) = x[i];
+          judgeSolution(B, X, "history-vector-solve", hist);
+        }
+        break;
+      }
+      case 6:
+      {
+        hist += ", copy-construct and go on with the copy";
+        vrt::step("history: " + hist);
+        unique_ptr<LUDecomposition<double>> nh(new LUDecomposition<double>(*h));
+        h = std::move(nh);
+        break;
+      }
+      case 7:
+      {
+        // the target has already served another matrix (other size when n != 2) and, half of the time, handed out its own factors
+        RowMatrix<double> other(2, 2);
+        other(0, 0) = 1.; other(0, 1) = 2.; other(1, 0) = 3.; other(1, 1) = 4.;
+        unique_ptr<LUDecomposition<double>> nh(new LUDecomposition<double>(other));
+        bool used = c.rng.chance(0.5);
+        if (used) { nh->getU(); nh->getL(); nh->getPivot(); nh->det(); }
+        hist += string(", assign to a decomposition of a 2x2 matrix") + (used ? " whose accessors had been called" : "") + " and go on with the target";
+        vrt::step("history: " + hist);
+        *nh = *h;
+        h = std::move(nh);
+        break;
+      }
+      case 8:
+      {
+        hist += ", MatrixTools::det(A)";
+        vrt::step("history: " + hist);
+        double dw = 0;
+        vrt::Outcome o = vrt::capture([&] { dw = MatrixTools::det(*mA); });
+        vrt::expect(o.returned() && vrt::close(dw, out.det, static_cast<double>(8 * static_cast<LD>(n) * EPS), 1e-290), "det.wrapper", cls + ",history", [&] {
+            return head + ": " + hist + " => MatrixTools::det " + (o.returned() ? num(dw) : o.text()) + " but LUDecomposition::det " + num(out.det);
+          });
+        break;
+      }
+      default:
+      {
+        int kO = static_cast<int>(c.rng.below(3)), pre = static_cast<int>(c.rng.below(4));
+        unique_ptr<Matrix<double>> mO = preState(kO, pre, n, n);
+        hist += string(", MatrixTools::inv(A, O(") + KN[kO] + ",pre-state " + str(pre) + "))";
+        vrt::step("history: " + hist);
+        double ind = 0;
+        vrt::Outcome o = vrt::capture([&] { ind = MatrixTools::inv(*mA, *mO); });
+        if (judgeOutcome(o, ind, "history-inv", hist))
+        {
+          Dense I(n, n);
+          for (size_t i = 0; i < n; ++i) I(i, i) = 1.0;
+          judgeSolution(I, toDense(*mO), "history-inv", hist);
+        }
+        break;
+      }
+      }
+      vrt::cover(string("history:op=") + opName[op] + ":after-" + prev);
+      prev = opName[op];
+    }
+    // every history ends with the four accessors, in a random order
+    vector<int> fin = { 0, 1, 2, 3 };
+    c.rng.shuffle(fin);
+    for (int what : fin) accessor(what);
+    vrt::cover(string("history:") + (uBeforeL ? "getU-before-first-getL" : lBeforeU ? "getL-before-first-getU" : "getL-only-before"));
+
+    // the first object once more, after its determinant, its copies and its three solves
+    c.rng.shuffle(fin);
+    string hist0 = "LUDecomposition(A), getL(), getU(), getPivot(), det(), copies, solve(B), solve(b)";
+    for (int what : fin)
+    {
+      hist0 += string(", ") + accName[what] + "()";
+      vrt::step("history: " + hist0);
+      judgeAccessor(lu, what, "repeated-call", hist0);
+    }
+  }
   Dense A2 = toDense(*mA);
   vrt::expect(A2.a == A.a, "input-unchanged", cls, [&] { return head + " was modified: " + dump(A2); });
   return out;
@@ -876,17 +1064,21 @@ int main(int argc, char** argv)
       "SMALL/4, 2^-20 | 2^-19, 4.SMALL, 1e-5, 1e-3 on either side of the singularity threshold SMALL=1e-6), singular (integer matrices with dependent rows/columns, singular values "
       "with a zero or tiny tail), scaled (2^k times an integer matrix, k in -30..30), refuse (wrong right-hand side heights, non-square inv/det). Every matrix goes through "
       "LUDecomposition (getL, getU, getPivot, det, solve with a 1..4 column matrix and with a vector) and MatrixTools::det / inv with random storage classes "
-      "(Row/Col/Linear) for A, B, X and 4 pre-states of the result. A class key = (generator flavour, n, band of the smallest returned pivot relative to SMALL, number of exchanged rows) "
+      "(Row/Col/Linear) for A, B, X and 4 pre-states of the result. Then a second decomposition of the same matrix goes through a random accessor history (1..4 operations "
+      "drawn from getL, getU, getPivot, det, both solves, copy-construct, assign into a used decomposition of another matrix, MatrixTools::det / inv, followed by the four accessors "
+      "in a random order) and the first one is asked again after its solves: every answer is judged by the statement and against the first answer. A class key = (generator flavour, n, band of the smallest returned pivot relative to SMALL, number of exchanged rows) "
       "resp. (storage classes, pre-state, columns, outcome): all involve a real factorisation.";
   meta.assumptions = {
     "tolerances: |PA-LU| <= 8 n eps |L||U|; |B-AX| <= 24 n eps P^T|L||U||X| (+1e-18 of the terms for the long double evaluation); |det()-det A| <= 2(prod(|a_i|+|g_i|)-prod|a_i|) + 8 n eps |det A| with g the rows of the first bound; eps=2^-52",
     "partial pivoting (anchors: 'factorisation with partial pivoting') is observed as |l_ij| <= 1; which of several rows of equal magnitude is taken is left open",
     "singularity is judged on the returned pivots: min|u_ii| < SMALL must raise ZeroDivisionException, > SMALL must return, == SMALL is left open; designed matrices keep the smallest pivot a factor 4 away from SMALL or on an exact power of two (row-permuted upper triangular: no rounding)",
     "reference determinant: exact (__int128 Bareiss) for integer matrices, long double elimination with complete pivoting otherwise",
+    "accessor histories: the elimination is deterministic, so getL / getU / getPivot / det of one decomposition object, of its copies and of a second decomposition of the same matrix are required to be the same values whatever was called before; a factor that differs is first judged by the statement (triangular shape, P.A = L.U bound)",
     "n = 1..10, finite entries of moderate magnitude (no overflow / underflow); right-hand sides with 1..4 columns; a right-hand side without columns and a 0x0 matrix are outside the quantifier",
     "the vector overload of solve is compiled with dim1/clean mapped to size/clear so that the harness builds on a header where that overload cannot be instantiated",
   };
   meta.requiredClauses = { "lu.PA=LU", "lu.L-unit-lower", "lu.U-upper", "lu.pivot-permutation", "lu.partial-pivoting", "det.sign-times-diagonal", "det.value", "det.transpose", "det.product",
-                           "solve.residual", "indicator.min-pivot", "singular.zero-division", "regular.returns", "refuse.rhs-height", "designed.min-pivot-side" };
+                           "solve.residual", "indicator.min-pivot", "singular.zero-division", "regular.returns", "refuse.rhs-height", "designed.min-pivot-side",
+                           "history.L-unit-lower", "history.U-upper", "history.PA=LU", "history.same-factors", "history.same-pivot", "history.same-determinant" };
   return vrt::run(argc, argv, "C05", groups, meta);
 }
